@@ -22,10 +22,17 @@ META = dict(
          "QueryRow/QueryRowIndex/Exec(Ctx)/DelCache(Ctx)/SetCache/outage/time steps up to a bound (plus seeded simulation "
          "of long ones) with the predicted result, database-callback count, DEL commands per second and cache "
          "contents, and each history is executed through sqlc.CachedConn on miniredis (single node and "
-         "consistent-hash cluster with every placement class) with the cleaner's timing wheel driven tick by tick.",
+         "consistent-hash cluster with every placement class) with the cleaner's timing wheel driven tick by tick. "
+         "Histories include bursts of 2, 3 and 10 removals (different keys) failing within one second, whose retries "
+         "fall due on one tick, and writes whose statement callback runs a complete read before the statement "
+         "(the only overlap of a read with a write that needs no racing): the write's removal follows the "
+         "statement, so the cache holds the truth once the write has returned.",
     note="A disagreement of a sequential history is reported only if it shows again on immediate re-execution "
-         "(go-redis re-sends commands whose reply timed out). Trusted: TLC, miniredis as Redis, the driver's tick barrier (a sentinel timer set right before each tick "
-         "fires last in its slot; then the cleaner's task runner is idle and the wheel has accepted a no-op). "
+         "(go-redis re-sends commands whose reply timed out). Trusted: TLC, miniredis as Redis, the driver's tick barrier (tasks fired by a tick wait in front of "
+         "clean until the driver has read off the wheel's registry how many the tick collected; then that many "
+         "have been taken over by clean, the cleaner's task runner is idle and the wheel has accepted a no-op; no timer "
+         "of the driver's own is involved, so how the wheel scans a slot stays code under test). A panic raised by the "
+         "code under test on the driver's goroutine is reported as a disagreement (C06:panic:<op>). "
          "Bounds: <= 2 ids, 2 index values, 2 payloads, 1-3 Redis nodes (placement classes split/mixed/three-way), "
          "cache node over Redis of type node and of type cluster (per-key removals failing individually), "
          "primary keys that are small integers, integers above 2^53 and strings (sequential histories and concurrent "
@@ -36,8 +43,11 @@ META = dict(
          "are in effect for non-positive values), "
          "histories of 3-6 operations exhaustively (each <= 60 000 histories) + seeded simulated histories of 14-40 "
          "operations, <= 4 outages, ladder rungs up to 60 s exhaustively and up to 3600 s in the thorough simulation. "
+         "bursts of up to 10 failed removals per second over 10 ids (plan burst; two-node cluster and ClusterType in "
+         "the thorough tier), reads inside a write's statement callback placed before the statement only (plans inner*). "
          "Not covered: operations racing with outages or with writes (only sequential histories + concurrent readers of "
-         "uncached keys between writes), a real multi-shard Redis Cluster (the ClusterType branch of node.DelCtx is driven "
+         "uncached keys between writes + a complete read inside a write's callback; reads still in flight when a write "
+         "returns are not generated), a real multi-shard Redis Cluster (the ClusterType branch of node.DelCtx is driven "
          "through go-redis' ClusterClient against one miniredis that owns all slots), hit/miss statistics "
          "(stat.go), invalid JSON in the cache (processCache), a caller context that ends DURING a write (only after "
          "it returned), sub-second expiry options, TakeWithExpire callers "
@@ -48,7 +58,8 @@ META = dict(
     design="4/C06")
 
 FINISH = dict(rule="histories = complete TLC enumeration (BFS over the history variable) up to MaxOps operations "
-                   "per plan, each followed by heal + advance past every pending retry + audit reads, plus "
+                   "per plan (a burst of writes on different ids within one second and the cache-filling reads at the "
+                   "start count as one operation each), each followed by heal + advance past every pending retry + audit reads, plus "
                    "seeded TLC simulation of longer histories; every step's result, callback counts, DEL "
                    "commands per second and cache contents are compared with the specification")
 
@@ -80,8 +91,9 @@ def cfgs_text(cfgs):
     return "{%s}" % ", ".join("[e |-> %s, nf |-> %s]" % (opt_text(e), opt_text(nf)) for e, nf in cfgs)
 
 
-def consts(ids, names, datas, nodes, place, ladder, jits, initdbs, adv, maxfail, e=40, nf=20, cfgs=None, ctxs=("bg",)):
-    return dict(Ids="{%s}" % ", ".join(map(str, ids)), Names=sset(names), Datas=sset(datas),
+def consts(ids, names, datas, nodes, place, ladder, jits, initdbs, adv, maxfail, e=40, nf=20, cfgs=None, ctxs=("bg",),
+           pres=("none",)):
+    return dict(Pres=sset(pres), Ids="{%s}" % ", ".join(map(str, ids)), Names=sset(names), Datas=sset(datas),
                 Nodes="{%s}" % ", ".join(map(str, nodes)), Place=place_text(ids, names, place),
                 Cfgs=cfgs_text(cfgs or [(e, nf)]), DefE=DEF_E, DefNF=DEF_NF, Ctxs=sset(ctxs),
                 Gap=5, Ladder="<<%s>>" % ", ".join(map(str, ladder)), Jits=sset(jits),
@@ -122,13 +134,25 @@ def mc(ctx, ladder):
     cfg = core.render_cfg(spec="Spec", constants=K, invariants=inv, properties=props, constraints=["Bound"], view="core")
     ctx.tlc("CacheAside", cfg, constants=K, defs=dict(Bound='s.clk <= 32 /\\ TLCGet("level") <= %d' % (lvl - 1)),
             name="CacheAside-mc3", timeout=900, workers=6, heap="4g")
+    # writes that carry a read inside their statement callback (before the statement): every read of one id /
+    # two index values, with outages; the cache must hold the truth after the write whatever the read stored
+    ids, names = [1], ["a", "b"]
+    K = consts(ids, names, ["x", "y"], [1], one_node(ids, names), ladder[:3], ["mid"],
+               "{%s, %s}" % (DB_EMPTY, DB_ONE), [1, 21], 2, e=20, nf=20, pres=("none", "qrow", "qindex"))
+    cfg = core.render_cfg(spec="Spec", constants=K, invariants=inv, properties=props, constraints=["Bound"], view="core")
+    ctx.tlc("CacheAside", cfg, constants=K, defs=dict(Bound='s.clk <= 32 /\\ TLCGet("level") <= %d' % (lvl - 1)),
+            name="CacheAside-mc4", timeout=900, workers=6, heap="4g")
 
 
-def gen(ctx, name, K, *, maxops, ops, maxdown=1, tail=6, audit_ids=None, audit_names=None, simulate=None, depth=None):
+def gen(ctx, name, K, *, maxops, ops, maxdown=1, tail=6, audit_ids=None, audit_names=None, simulate=None, depth=None,
+        read_ids=None, read_names=None, bursts=(), burst_kinds=("put", "delcache")):
     G = dict(K)
     ids = [int(x) for x in K["Ids"].strip("{}").split(",")]
     names = [x.strip().strip('"') for x in K["Names"].strip("{}").split(",")]
     G.update(MaxOps=maxops, Ops=sset(ops), MaxDown=maxdown, TailTicks=tail,
+             ReadIds="{%s}" % ", ".join(map(str, read_ids if read_ids is not None else ids)),
+             ReadNames=sset(read_names if read_names is not None else names),
+             Bursts="{%s}" % ", ".join("{%s}" % ", ".join(map(str, b)) for b in bursts), BurstKinds=sset(burst_kinds),
              AuditIds="<<%s>>" % ", ".join(map(str, audit_ids if audit_ids is not None else ids)),
              AuditNames="<<%s>>" % ", ".join(q(n) for n in (audit_names if audit_names is not None else names)))
     cfg = core.render_cfg(spec="GSpec", constants=G, invariants=["Emit"])
@@ -166,16 +190,18 @@ def get_ladder(ctx, binp):
 class Plan:
     def __init__(self, name, ids, names, datas, nodes, place, jits, initdbs, adv, maxfail, maxops, ops, maxdown=1,
                  tail=6, fault="error", simulate=None, depth=None, shards=6, e=40, nf=20, rtype="node", pk="small",
-                 cfgs=None, ctxs=("bg",)):
+                 cfgs=None, ctxs=("bg",), pres=("none",), bursts=(), burst_kinds=("put", "delcache"), read_ids=None,
+                 read_names=None, audit_names=None):
         self.__dict__.update(locals())
 
 
 def gen_plan(ctx, ladder, p):
     """TLC: the histories of plan p (runs ahead of the replay of the previous plan)"""
     K = consts(p.ids, p.names, p.datas, list(range(1, p.nodes + 1)), p.place, ladder, p.jits, p.initdbs, p.adv, p.maxfail,
-               e=p.e, nf=p.nf, cfgs=p.cfgs, ctxs=p.ctxs)
+               e=p.e, nf=p.nf, cfgs=p.cfgs, ctxs=p.ctxs, pres=p.pres)
     cases = gen(ctx, p.name, K, maxops=p.maxops, ops=p.ops, maxdown=p.maxdown, tail=p.tail, simulate=p.simulate,
-                depth=p.depth)
+                depth=p.depth, read_ids=p.read_ids, read_names=p.read_names, bursts=p.bursts, burst_kinds=p.burst_kinds,
+                audit_names=p.audit_names)
     if not cases:
         raise core.Infra("plan %s generated no behaviour" % p.name)
     path, n = ctx.write_cases(p.name + ".ndjson", cases)
@@ -242,10 +268,39 @@ def plans_for(ctx):
     # how the expiry options are configured: not given, zero, negative (the defaults are in effect), small positive
     P.append(Plan("cfg", i1, n1, d, 1, one1, ["lo", "hi"], dbs if q else dbs2, [1, 8], 0, 3 if q else 4,
                   READS + WRITES + ["adv"], maxdown=0, cfgs=CFG_ALL))
+    # several removals failing within ONE second (writes / DelCache calls on different keys while the node is down):
+    # their retries fall due on the same tick of the cleaner's wheel; 2, 3 and 10 at once, overlapping sets
+    # (a second burst before the first retry adds to the same tick), then recovery and hand-driven ticks
+    i10, n10 = list(range(1, 11)), list("abcdefghij")
+    db10 = '{[i \\in Ids |-> [name |-> <<%s>>[i], data |-> "x"]]}' % ", ".join('"%s"' % n for n in n10)
+    P.append(Plan("burst", i10, n10, d, 1, one_node(i10, n10), ["mid"], db10, [1, 5], 24, 4 if q else 5,
+                  ["warm", "burst", "adv", "down", "up", "qrow"], maxdown=1, e=30, nf=10, shards=6,
+                  bursts=[[1, 2], [2, 3, 4], i10], read_ids=[2], audit_names=["b", "j"]))
+    # a complete read (miss -> database -> cache -> return) INSIDE the statement callback of a write, before the
+    # statement: the row it stores is the one the write replaces; the write's removal follows the statement
+    P.append(Plan("inner", i1, n2, d, 1, one12, ["hi"], dbs, [1], 0, 3, READS + WRITES, maxdown=0,
+                  e=30, nf=10, pres=("qrow", "qindex")))
+    P.append(Plan("inner-out", i1, n1, d, 1, one1, ["lo"], dbs, [1], 3, 4, ["qrow", "put", "delete", "down", "up"], maxdown=1,
+                  pres=("none", "qrow", "qindex"), ctxs=("bg",) if q else ("bg", "cancel")))
     # long random histories
     P.append(Plan("sim", i2, n2, d, 1, one2, ["lo", "mid", "hi"], dbs2, [1, 5, 10, 11, 60], 6, 14 if q else 40, ALL,
                   maxdown=4, simulate=300 if q else 3000, depth=60, tail=61, cfgs=CFG_SIM, ctxs=CTX_ALL))
     if not q:
+        # bursts over a two-node cluster (tasks of both nodes in one tick) and over Redis of ClusterType (one task per key)
+        i4, n4 = [1, 2, 3, 4], list("abcd")
+        db4 = '{[i \\in Ids |-> [name |-> <<"a", "b", "c", "d">>[i], data |-> "x"]]}'
+        pl4 = {"p:1": 1, "p:2": 2, "p:3": 1, "p:4": 2, "i:a": 2, "i:b": 1, "i:c": 1, "i:d": 2}
+        P.append(Plan("burst-clu", i4, n4, d, 2, pl4, ["hi"], db4, [1, 5], 24, 5, ["warm", "burst", "adv", "down", "up"],
+                      maxdown=2, bursts=[[1, 2], [2, 3, 4], i4], audit_names=["a", "d"]))
+        P.append(Plan("burst-rclu", i4, n4, d, 2, pl4, ["lo"], db4, [1], 24, 4, ["warm", "burst", "adv", "down", "up"],
+                      maxdown=2, bursts=[[1, 2], i4], audit_names=["b"], rtype="cluster", e=30, nf=10))
+        # reads inside the statement callback: two ids (the read may concern the other row), cluster placements
+        P.append(Plan("inner2", i2, n2, d, 1, one2, ["mid"], dbs2, [1], 0, 3, READS + WRITES, maxdown=0,
+                      pres=("qrow", "qindex")))
+        P.append(Plan("inner-clu", i1, n2, d, 2, split, ["lo"], dbs, [1], 3, 4, ["qindex", "put", "down", "up"], maxdown=1,
+                      pres=("qrow", "qindex"), e=30, nf=10))
+        P.append(Plan("sim-inner", i2, n2, d, 1, one2, ["lo", "hi"], dbs2, [1, 5, 11], 6, 30, ALL, maxdown=3, simulate=800,
+                      depth=50, tail=61, cfgs=CFG_SIM, pres=("none", "qrow", "qindex")))
         P.append(Plan("coh-lo", i2, n2, d, 1, one2, ["lo"], dbs2, [1, 10], 0, 4, READS + WRITES + ["adv"], maxdown=0, e=30, nf=10))
         P.append(Plan("coh-mid", i2, n2, d, 1, one2, ["mid"], dbs, [20, 45], 0, 4, READS + WRITES + ["adv"], maxdown=0))
         P.append(Plan("coh5", i1, n2, d, 1, one12, ["hi"], dbs, [1, 11], 0, 5, READS + WRITES + ["adv"], maxdown=0, e=30, nf=10))
@@ -377,22 +432,24 @@ def run_all(ctx):
         return
     only = os.environ.get("C06_ONLY")
     only = only.split(",") if only else None
-    if not only or "mc" in only:
-        mc(ctx, ladder)
     ctx.exhaustive = True
-    # the histories of the next plan are generated while those of the current one are executed
+    # the model checking of CacheAside runs beside the replays (its outcome is collected at the end); the
+    # histories of the next plan are generated while those of the current one are executed
     from concurrent.futures import ThreadPoolExecutor
     plans = [p for p in plans_for(ctx) if not only or p.name in only]
-    with ThreadPoolExecutor(max_workers=1) as ex:
+    with ThreadPoolExecutor(max_workers=1) as mcx, ThreadPoolExecutor(max_workers=1) as ex:
+        mcf = mcx.submit(mc, ctx, ladder) if (not only or "mc" in only) else None
         futs = [ex.submit(gen_plan, ctx, ladder, p) for p in plans]
         try:
             for p, f in zip(plans, futs):
                 replay_plan(ctx, binp, p, *f.result())
+            if not only or "conc" in only:
+                concurrent(ctx, binp)
         finally:
             for f in futs:
                 f.cancel()
-    if not only or "conc" in only:
-        concurrent(ctx, binp)
+        if mcf is not None:
+            mcf.result()
     unconf = sum(v for k, v in ctx.counters.items() if k.endswith(".unconfirmed_disagreement"))
     if unconf:
         ctx.notes["unconfirmed_disagreements"] = unconf   # did not show again on immediate re-execution (transport noise)
@@ -420,6 +477,10 @@ def run_all(ctx):
         "driver lets it expire (Done closed, Err = DeadlineExceeded) between the return of the call and the next tick",
         "outages are injected as error replies of the Redis node (bulk) and by closing/restarting the server "
         "(plan 'close'); they change only between operations, not inside one",
+        "the model database changes at the statement of a write's callback (no separate commit); a read placed inside "
+        "the callback before the statement sees the old row and is judged against it, reads after the write has "
+        "returned against the new one",
+        "operations of one burst happen within the same model second: no tick of the cleaner's wheel is issued between them",
     ]
 
 
@@ -437,7 +498,12 @@ def vacuity(ctx):
             # every class of expiry configuration, with entries and placeholders stored under it
             "cfg.cfg_e_unset": 1, "cfg.cfg_e_zero": 1, "cfg.cfg_e_negative": 1, "cfg.cfg_e_positive": 1,
             "cfg.cfg_nf_unset": 1, "cfg.cfg_nf_zero": 1, "cfg.cfg_nf_negative": 1, "cfg.cfg_nf_positive": 1,
-            "cfg.stored_default_expiry": 1, "cfg.stored_default_nf_expiry": 1, "cfg.read_row": 1, "cfg.read_nf": 1}
+            "cfg.stored_default_expiry": 1, "cfg.stored_default_nf_expiry": 1, "cfg.read_row": 1, "cfg.read_nf": 1,
+            # seconds in which 2 / 3 / 10 and more failed removals were retried together
+            "burst.retry_fires_ge2": 1, "burst.retry_fires_ge3": 1, "burst.retry_fires_ge10": 1, "burst.read_row": 1,
+            # writes whose statement callback ran a complete read first; such reads that reached the database
+            "inner.write_with_inner_qrow": 1, "inner.write_with_inner_qindex": 1, "inner.inner_read_db": 1,
+            "inner-out.inner_read_db": 1, "inner-out.failed_removal_cx_bg": 1}
     missing = [k for k, v in need.items() if c.get(k, 0) < v]
     if missing:
         raise core.Infra("vacuous run: counters %s are zero" % missing)
@@ -459,7 +525,7 @@ def replay(ctx, rp):
     p = plan[0]
     ladder = get_ladder(ctx, binp)
     K = consts(p.ids, p.names, p.datas, list(range(1, p.nodes + 1)), p.place, ladder, p.jits, p.initdbs, p.adv, p.maxfail,
-               e=p.e, nf=p.nf, cfgs=p.cfgs, ctxs=p.ctxs)
+               e=p.e, nf=p.nf, cfgs=p.cfgs, ctxs=p.ctxs, pres=p.pres)
     path, _ = ctx.write_cases("replay.ndjson", [rp["case"]])
     env = dict(VERIF_C06_CFG=drv_cfg(K, p.nodes, p.place, p.ids, p.names, p.rtype, p.pk), VERIF_C06_FAULT=p.fault)
     ctx.replay(PKG, OVERLAY, RUN, path, label=p.name, env=env, shards=1, binp=binp)
